@@ -148,4 +148,11 @@ theorem fact_file_cache_is_atomicfile :
     Facts.fileCacheReadBody = ["return os.ReadFile(string(f))"] := by
   decide
 
+/-! ### T1: the functions the model transcribes, statement by statement (white space collapsed) -/
+
+def expected_Store_flushCacheLocked : List String := ["if s.cache == nil { return nil }", "data, err := json.Marshal(s.active.m)", "if err != nil { return fmt.Errorf(\"encoding state: %w\", err) } else if err := s.cache.Write(data); err != nil { return fmt.Errorf(\"updating cache: %w\", err) }", "return nil"]
+
+/-- the cache write: the whole active set marshalled and handed to the cache in one call, its error returned -/
+theorem fact_Store_flushCacheLocked_as_transcribed : Facts.body_Store_flushCacheLocked = expected_Store_flushCacheLocked := by rfl
+
 end Setec.C13
